@@ -31,7 +31,7 @@ def event_world(seed, twins=True):
     rng = w.rng
     for ci in range(2):
         chrom = "chr%d" % (ci + 1)
-        w.add_chrom(chrom, 170000)
+        w.add_chrom(chrom, 230000)
         pos = 2000
         for gi in range(5):
             strand = rng.choice("+-")
@@ -217,6 +217,21 @@ def event_world(seed, twins=True):
             if ex[0][0] > 900:
                 w.make_read(t.chrom, [(ex[0][0] - 700 + 10 * q, ex[0][0] - 401), (ex[0][0] - 230, ex[0][0] - 201), (ex[0][0] - 50, ex[0][1])] + ex[1:3],
                             truth={"src": t.id, "class": "two-extra-introns-left-short-inner-exon"})
+    # a gene with a 5-bp annotated micro-intron; error-free reads whose own 5-bp intron lies right before / right after it (each site 6 bp away:
+    # equal within delta, no shared base)
+    for ci, chrom in enumerate(w.chrom_order):
+        p0 = max([g.end for g in w.genes if g.chrom == chrom] + [1000]) + 2500
+        if p0 + 3000 < w.chrom_len(chrom) - 8000:
+            gid = "MI5_%d" % (ci + 1)
+            e = [(p0, p0 + 200), (p0 + 206, p0 + 400), (p0 + 1000, p0 + 1300)]
+            g = Gene(gid, chrom, "+-"[ci % 2])
+            g.transcripts.append(Transcript(gid + ".t1", gid, chrom, g.strand, e, True, "five-bp-micro-intron"))
+            w.plant_sites(chrom, g.transcripts[0].introns[1], g.strand)
+            w.genes.append(g)
+            for q in range(2):
+                w.make_read(chrom, list(e), truth={"src": gid + ".t1", "class": "exact"})
+                w.make_read(chrom, [(p0, p0 + 194), (p0 + 200, p0 + 400), e[2]], truth={"src": gid + ".t1", "class": "own-5bp-intron-before-the-annotated-one"})
+                w.make_read(chrom, [(p0, p0 + 206), (p0 + 212, p0 + 400), e[2]], truth={"src": gid + ".t1", "class": "own-5bp-intron-after-the-annotated-one"})
     # a 3-base terminal read exon, all of its bases mismatching, whose splice site lies 6 bp inside the neighbouring annotated intron (jitter
     # within delta with errors next to the junction: the annotated site would be forced, but it lies BEYOND the end of the read)
     comp_ = {"A": "C", "C": "A", "G": "T", "T": "G"}
@@ -377,7 +392,20 @@ def run(chk, scratch):
             for i in t.introns:
                 for _ in range(3):
                     sw.make_read(t.chrom, [(i[0] - 60, i[0] - 1), (i[1] + 1, i[1] + 60)], name=sw.new_read_name("s"))
+        # a long read with a 15-base first (last) exon in a gene-free stretch, and short reads supporting two introns around a 39-bp exon whose
+        # outer intron begins 5 bp BEFORE the long read's start (ends 5 bp after its end): the short-read rule must not swallow the terminal exon
+        for chrom in w.chrom_order[:1]:
+            q0 = max([g.end for g in w.genes if g.chrom == chrom] + [1000]) + 6000
+            if q0 + 12000 < w.chrom_len(chrom):
+                w.make_read(chrom, [(q0, q0 + 14), (q0 + 2001, q0 + 2500)], truth={"class": "short-first-exon-near-short-read-introns"})
+                w.make_read(chrom, [(q0 + 5000, q0 + 5499), (q0 + 7001, q0 + 7015)], truth={"class": "short-last-exon-near-short-read-introns"})
+                for intr in ((q0 - 5, q0 + 1000), (q0 + 1040, q0 + 2000), (q0 + 5500, q0 + 6000), (q0 + 6040, q0 + 7020)):
+                    for _ in range(3):
+                        sw.make_read(chrom, [(intr[0] - 60, intr[0] - 1), (intr[1] + 1, intr[1] + 60)], name=sw.new_read_name("s"))
         sw.write_bam(os.path.join(d, "short.bam"))
+        w.write_bam(os.path.join(d, "r.bam"))
+        # a second short-read file that lists only the first sequence in its header (per-chromosome file set)
+        sw.write_bam(os.path.join(d, "short_first_sequence.bam"), reads=[r_ for r_ in sw.reads if r_.chrom == w.chrom_order[0]], chrom_order=w.chrom_order[:1])
         worlds[key] = (d, w)
 
     def one(job):
@@ -388,7 +416,7 @@ def run(chk, scratch):
         if "--delta" in st:
             extra += ["--delta", st.split("--delta ")[1]]          # explicit tolerance (0 = junctions may not move at all)
         if not annotated:
-            extra += ["--illumina_bam", os.path.join(d, "short.bam")]
+            extra += ["--illumina_bam", os.path.join(d, "short.bam"), os.path.join(d, "short_first_sequence.bam")]
         r = pipeline.run(d, out, data_type=dt, threads=1 + len(st.split("/")[0]) % 2, annotated=annotated, home=out + "_home", extra=extra)
         return job, out, r
     judged = 0
